@@ -314,7 +314,7 @@ func (cr *ctxReplayer) runSeq(v ctxVec, run string) {
 }
 
 func checkC12(r *Run) {
-	maxLen := pick(r, 3, 3)
+	maxLen := pick(r, 3, 4)
 	gen := fmt.Sprintf("---- MODULE Gen_Context ----\nGenMaxLen == %d\n====\n", maxLen)
 	model := r.runTLC(tlcOpts{Module: "MC_ContextModel", Gen: map[string]string{"Gen_Context.tla": gen}, Timeout: 5 * time.Minute})
 	model.mustClean("MC_ContextModel")
